@@ -214,6 +214,10 @@ def check_case(case, acc):
                         acc.fail("%s/pdist/index-%s" % (cls, index), ("label1", rows, index, extra, cls), exp, v if raised(v) else v.tolist())
                         return
                     acc.ok()
+                    if index in ("default", "permuted") and not extra:
+                        # the very same table object as anchors and comparisons
+                        if not _cmp(acc, cls, kw, rows, rows, m, A, A, "same-object", ("label1", rows, index, extra, cls)):
+                            return
     elif kind == "label1":
         _, rows, index, extra, cls = case
         m, kw = make(cls, PRIMES)
